@@ -198,20 +198,20 @@ def check(ctx, rep):
 
 
 
-def _chain_cancel(ctx, rep):
+def _chain_cancel(ctx, rep, rule="R-FANOUT"):
     prog = ctx.prog
     cc = prog.fn("base:chain_cancel")
     ps, it = ctx.paths(cc, None, depth=1)
     for p in ps:
         regs = [e for e in p.calls() if q.call_name(e) == "add_done_callback"]
         ok = len(regs) == 1 and q.recv(regs[0]) == ("param", cc.params[0])
-        rep.ob("R-FANOUT", "chain_cancel registers on the outer future", ok, "", where_of(cc))
+        rep.ob(rule, "chain_cancel registers on the outer future", ok, "", where_of(cc))
         if not ok:
             continue
         cb = regs[0].d["args"][0]
         inner = roles.unwrap(ctx, p, cb, it)
         if not (isinstance(inner, tuple) and inner[0] == "closure"):
-            rep.ob("R-FANOUT", "chain_cancel callback cancels the inner future iff the outer was cancelled", False, "callback %s not analysable" % fmt(inner), where_of(cc))
+            rep.ob(rule, "chain_cancel callback cancels the inner future iff the outer was cancelled", False, "callback %s not analysable" % fmt(inner), where_of(cc))
             continue
         sub = it.closures[inner[2]][0]
         ps2, it2 = ctx.paths(sub, None, depth=0)
@@ -222,7 +222,7 @@ def _chain_cancel(ctx, rep):
                     was = v
             cs = [e for e in p2.calls() if q.call_name(e) == "cancel"]
             ok2 = was is not None and ((len(cs) == 1 and q.term_name(q.recv(cs[0])) == cc.params[1]) if was else not cs)
-            rep.ob("R-FANOUT", "chain_cancel callback cancels the inner future iff the outer was cancelled", ok2, "outer cancelled=%s but %d cancel calls" % (was, len(cs)), where_of(sub), trace_of(p2))
+            rep.ob(rule, "chain_cancel callback cancels the inner future iff the outer was cancelled", ok2, "outer cancelled=%s but %d cancel calls" % (was, len(cs)), where_of(sub), trace_of(p2))
 
 
 REST_ = [None]
